@@ -1021,10 +1021,9 @@ impl CurveExt for G2Projective {
     }
 
     fn jacobian_coordinates(&self) -> (Self::Base, Self::Base, Self::Base) {
-        // Homogeneous to Jacobian
-        let x = self.x() * self.z();
-        let y = self.y() * self.z().square();
-        (x, y, self.z())
+        // blst points are already in Jacobian coordinates:
+        // (X, Y, Z) represents the affine point (X/Z^2, Y/Z^3).
+        (self.x(), self.y(), self.z())
     }
 
     fn hash_to_curve<'a>(domain_prefix: &'a str) -> Box<dyn Fn(&[u8]) -> Self + 'a> {
@@ -1045,13 +1044,12 @@ impl CurveExt for G2Projective {
     }
 
     fn new_jacobian(x: Self::Base, y: Self::Base, z: Self::Base) -> CtOption<Self> {
-        // Jacobian to homogeneous
-        let z_inv = z.invert().unwrap_or(Fp2::ZERO);
-        let p_x = x * z_inv;
-        let p_y = y * z_inv.square();
+        // blst points are already in Jacobian coordinates, so (x, y, z) is stored
+        // as is; the point at infinity (z = 0) is stored as (0, 1, 0).
+        let z_is_zero = z.is_zero();
         let p = G2Projective::from_raw_unchecked(
-            p_x,
-            Fp2::conditional_select(&p_y, &Fp2::ONE, z.is_zero()),
+            Fp2::conditional_select(&x, &Fp2::ZERO, z_is_zero),
+            Fp2::conditional_select(&y, &Fp2::ONE, z_is_zero),
             z,
         );
         CtOption::new(p, p.is_on_curve())
